@@ -7,6 +7,7 @@ from jaqalpaq.core.algorithm.expand_subcircuits import SubcircuitExpander
 from jaqalpaq.error import JaqalError
 from jaqalpaq.core.circuit import Circuit
 from jaqalpaq.core.macro import Macro
+from contracts_gates import wf_gate
 
 
 @spec
@@ -52,18 +53,25 @@ def rebound(o, r) -> bool:
 
 
 @spec
+def wf_gate0(g) -> bool:
+    """a gate definition without parameters (what prepare_all / measure_all are)"""
+    return isinstance(g, AbstractGate) and is_str(g._name) and isinstance(g._parameters, list) and len(g._parameters) == 0
+
+
+@spec
 def wf_expander(v) -> bool:
-    return (type_is(v, SubcircuitExpander) and isinstance(v.prepare_def, AbstractGate) and isinstance(v.measure_def, AbstractGate)
+    return (type_is(v, SubcircuitExpander) and wf_gate0(v.prepare_def) and wf_gate0(v.measure_def)
             and len(v.prepare_def._parameters) == 0 and len(v.measure_def._parameters) == 0
             and isinstance(v.macros, dict))
 
 
-@assumed("core.gatedef:AbstractGate.__call__", props=["C09"])
+@contract("core.gatedef:AbstractGate.__call__", props=["C09", "C18"])
 class GateCall0:
-    """Assumed (not yet verified): calling a parameterless definition without arguments gives its statement."""
+    """calling a parameterless definition without arguments gives its statement (through AbstractGate.call's
+    contract for the empty call)"""
 
     def requires(self, args, kwargs):
-        return isinstance(self, AbstractGate) and len(args) == 0 and len(kwargs) == 0 and len(self._parameters) == 0
+        return wf_gate0(self) and isinstance(args, tuple) and isinstance(kwargs, dict) and len(args) == 0 and len(kwargs) == 0
 
     def ensures(self, args, kwargs, result):
         return is_call0(result, self)
